@@ -138,6 +138,29 @@ Lemma machine_fail_is_step (data : Type) (lock : N) (midcheck postcopy recheck f
   step data lock midcheck postcopy recheck freshrule reachrule s (LsFail data c) = Some (fail_st data s c).
 Proof. intros A B. cbn. rewrite A, B. reflexivity. Qed.
 
+(** * The sync state after a run-time ResetLocalState (/repo commit a3c8cc9)
+
+    The reset removes the local level-0 files and re-fetches the replica's newest one; the level-0
+    chain may be cut back, which is not a step of the machine (its chain only grows).  What the
+    theorems need from the reset is that verify then runs with the sync state of a fresh session —
+    [verify_truncated_without_flag_snapshots] and [verify_fresh_session_salt_change_snapshots] (C04)
+    then say that a WAL that was truncated or restarted since the baseline is snapshotted.  The entry
+    compares the implementation's sync state after every ResetLocalState of the harness with the
+    session state the machine gives a closed database ([Machine.set_closed]: the state a1345df /
+    acbcc3c clear to).
+    input  [syncedToWALEnd before; reachedWALEnd before; lastSyncedWALOffset before (frames)]
+    output [syncedToWALEnd; reachedWALEnd; lastSyncedWALOffset (frames)] after the reset *)
+Definition machine_reset (x : sx) : sx :=
+  let s0 : state N :=
+    mkSt N (fun _ => 0) 1 0 [[mkF N 1 1 0]] 0 1 [(O, mkF N 1 1 0)] (Some 1%nat) false true [] 0 0 0
+         (mkSess (asB (nthx 0 x)) (N.to_nat (asN (nthx 2 x))) false None (asB (nthx 1 x))) Idle Lost [] [] in
+  let s1 := set_closed N s0 in
+  SL [sxB (flag N s1); sxB (reached N s1); sxN (N.of_nat (lastoff N s1))].
+
+Example machine_reset_example :
+  machine_reset (SL [sxB true; sxB true; sxN 7]) = SL [sxB false; sxB false; sxN 0].
+Proof. vm_compute. reflexivity. Qed.
+
 (** * [Machine.verify] against the byte-level model of verifyWithExecutor on observed states
 
     The byte-level model [Db.Verify.verify] is compared with db.go on every observed sync step
